@@ -298,6 +298,9 @@ class Sym(object):
         v = z3.simplify(self.t)
         if z3.is_rational_value(v):
             return float(Fraction(v.numerator_as_long(), v.denominator_as_long()))
+        e = engine()
+        if e is not None and e.allow_realize:
+            return e.realize(self.t)
         raise EngineError('silent concretisation of symbolic value %s' % str(self.t)[:80])
 
     def __int__(self):
@@ -437,6 +440,9 @@ class Engine(object):
         self.shard_depth = shard_depth
         self.use_lemmas = use_lemmas
         self.stats = dict(feas_checks=0, feas_unknown=0, feas_s=0.0, model_hits=0)
+        self.allow_realize = True
+        self.realized = 0
+        self.hints_for_realize = []
         self.reset([])
 
     # ---- per path state
@@ -444,6 +450,7 @@ class Engine(object):
         self.prefix = list(prefix)
         self.pos = 0
         self.pc = []
+        self.realized_vals = []
         self.decided = {}
         self.pre = []
         self.lemmas = []
@@ -452,6 +459,35 @@ class Engine(object):
         self.model = None
         self.nforks = 0
         self._shard_checked = False
+
+    def realize(self, term):
+        """the code under test forces a symbolic value into a C-level float (e.g. np.asarray(x, dtype=float)):
+        fix it to its value in a model of the current path (concolic fallback).  The path then covers that one value
+        only, so a run that realised anything can still find violations but can no longer claim 'holds'."""
+        from fractions import Fraction
+        # prefer a value different from everything realised so far on this path (generic position)
+        distinct = [term != realval(v) for v in self.realized_vals]
+        r, m = self.sat_check(list(self.hints_for_realize) + distinct, 2000)
+        if r != 'sat':
+            r, m = self.sat_check(distinct, 2000)
+        if r != 'sat':
+            r, m = self.sat_check([], 5000)
+        if r != 'sat':
+            raise EngineError('cannot realise %s: path not satisfiable/unknown' % str(term)[:60])
+        v = m.eval(term, model_completion=True)
+        if z3.is_rational_value(v):
+            fr = Fraction(v.numerator_as_long(), v.denominator_as_long())
+        elif z3.is_algebraic_value(v):
+            fr = v.approx(20).as_fraction()
+            fr = Fraction(fr.numerator, fr.denominator) if hasattr(fr, 'numerator') else Fraction(float(fr))
+        else:
+            raise EngineError('cannot realise %s' % str(term)[:60])
+        fl = float(fr)
+        self.pc.append(term == realval(fl))
+        self.model = None
+        self.realized += 1
+        self.realized_vals.append(fl)
+        return fl
 
     def assume(self, b):
         t = boolterm(b)
